@@ -97,6 +97,41 @@ def same(a, b):
     return False
 
 
+def differ(a, b):
+    """are two terms DEFINITELY different values: both have a canonical form (a polynomial over plain atoms, or a bit
+    vector without unknown bits) and the forms differ.  Otherwise the comparison is undecided."""
+    if a is None or b is None:
+        return a is not b
+    plain = lambda pl: all(isinstance(x, tuple) and x[0] in ('arg', 'ld', 'call', 'wr', 'cf') for mon in pl.t for x in mon)
+    for ring, w in (('real', None), ('int', 64)):
+        try:
+            pa, pb = ir.to_poly(a, ring, width=w), ir.to_poly(b, ring, width=w)
+            if plain(pa) and plain(pb) and pa.t and pb.t:
+                return pa != pb
+        except Exception:
+            pass
+    try:
+        aw = {x: 64 for x in ir.atoms(a) | ir.atoms(b) if x[0] in ('arg', 'ld')}
+        ba, bb = ir.to_bits(a, 64, aw), ir.to_bits(b, 64, aw)
+        if not any(isinstance(x, tuple) and x[0] == 'top' for x in ba + bb):
+            return ba != bb
+    except Exception:
+        pass
+    return None
+
+
+def verdict(a, b):
+    """'same' | 'differ' | 'unknown' for the values a (NDEBUG build) and b (assertion-enabled build)"""
+    if same(a, b):
+        return 'same'
+    d = differ(a, b)
+    if d:
+        return 'differ'
+    if a is not None and b is not None and ir.atoms(a) != ir.atoms(b):
+        return 'differ'        # one build's value depends on something the other's does not
+    return 'unknown'
+
+
 def harness_sets(tier):
     sets = []
     sets.append(("c02", c02.own_harnesses(tier), ()))
@@ -159,6 +194,24 @@ def u6(rep, h, tag):
         rep.fail("C15.U2", inst, "harness " + h.name, "reads bytes %d..%d of a %d-byte backend value (out of bounds)" % (oob[0][2], oob[0][2] + oob[0][3], vsize[oob[0][1][1]]))
     else:
         rep.ok("C15.U2", inst)
+    # in the assertion-enabled build, values are compared under the assumption that the assertions on the way held (their
+    # conditions are part of the path and may appear inside the selects that compute a value)
+    passed = []
+    for c in s.calls:
+        if c.name == "__assert_fail":
+            # each alternative path to the failure ends with the negated assertion (the conjunct added last)
+            def fail_lits(x):
+                if isinstance(x, tuple) and x and x[0] == 'or':
+                    return fail_lits(x[1]) + fail_lits(x[2])
+                lits = [l for l in ir.flatten_and(x) if isinstance(l, tuple)]
+                return lits[:1]
+            passed += [q for l in fail_lits(c.cond) for q in ir.flatten_and(ir.mk_not(l)) if isinstance(q, tuple)]
+    if passed:
+        from .io_array import assume
+        for c in sinks:
+            c.args = [assume(a, passed) if isinstance(a, tuple) else a for a in c.args]
+        outs = {k: assume(v, passed) for k, v in outs.items()}
+        ret = assume(ret, passed) if ret is not None else None
     return sinks, outs, ret
 
 
@@ -294,6 +347,42 @@ def io_buffer_rule(rep, tier):
                             break
                         if len(consts) == len(alts):
                             verdict = "ok"
+                if verdict is None and why is None:
+                    # a length computed from words of the stream that the path has validated to be one of finitely many constants
+                    # (the float width): enumerate them
+                    from .io_array import assume
+                    from .hilbert_curve import subst, const_fold
+                    ws = sorted({a for a in ir.atoms(n) if a[0] == 'wr'}, key=repr)
+                    cap = None
+                    if dst[0] == 'ptr' and isinstance(dst[2], int):
+                        if dst[1][0] == 'alloca':
+                            cap = getattr(s, "alloca_size", {}).get(dst[1][1])
+                        elif dst[1][0] == 'ret':
+                            newc = next((x for x in s.calls if x.n == dst[1][1]), None)
+                            if newc is not None and newc.name in ("_Znam", "_Znwm") and newc.args and newc.args[0][0] == 'ci':
+                                cap = newc.args[0][1]
+                    values = None
+                    if ws and cap is not None and len(ws) <= 2:
+                        ks = {}
+                        ir.walk(c.cond, lambda x: ks.setdefault(x[2] if x[2] in ws else x[3], set()).add((x[3] if x[2] in ws else x[2])[1])
+                                if x[0] == 'cmp' and x[1] == 'eq' and ((x[2] in ws and x[3][0] == 'ci') or (x[3] in ws and x[2][0] == 'ci')) else None)
+                        if all(a in ks for a in ws):
+                            none_of = [('not', ('cmp', 'eq', a, ('ci', k, a[4] * 8))) for a in ws for k in ks[a]]
+                            if assume(c.cond, none_of) == ir.FALSE:      # the path requires each word to be one of its constants
+                                import itertools
+                                values = []
+                                for combo in itertools.product(*[sorted(ks[a]) for a in ws]):
+                                    m_ = {a: ('ci', k, a[4] * 8) for a, k in zip(ws, combo)}
+                                    if assume(c.cond, [('cmp', 'eq', a, m_[a]) for a in ws]) == ir.FALSE:
+                                        continue
+                                    v = const_fold(subst(n, m_))
+                                    values.append(v[1] if v[0] == 'ci' else None)
+                    if values and all(v is not None for v in values):
+                        over = [v for v in values if dst[2] + v > cap]
+                        if over:
+                            why = "a read of %d bytes (the length is computed from a word of the stream, which the reader accepts) targets a %d-byte buffer at offset %d" % (max(over), cap, dst[2])
+                            break
+                        verdict = "ok"
                 if verdict is None:
                     rep.undecided("C15.U2-io %s: a read transfers a number of bytes computed at run time (%s) and the bound on it is not decided here" % (inst, ir.show(n)[:80]))
                 continue
@@ -347,25 +436,38 @@ def run(rep, tier):
                 continue
             (s1, o1, r1), (s2, o2, r2) = a, b
             why = None
+            unknown = None
             if len(s1) != len(s2):
                 why = "NDEBUG build makes %d backend queries, assertion-enabled build %d" % (len(s1), len(s2))
             else:
                 for c1, c2 in zip(s1, s2):
-                    if len(c1.args) != len(c2.args) or not all(same(x, y) for x, y in zip(c1.args, c2.args)):
+                    vs = [verdict(x, y) for x, y in zip(c1.args, c2.args)]
+                    if len(c1.args) != len(c2.args) or 'differ' in vs:
                         why = "backend query #%d differs between the builds: %s vs %s" % (c1.n, [ir.show(x)[:60] for x in c1.args], [ir.show(x)[:60] for x in c2.args])
                         break
+                    if 'unknown' in vs:
+                        unknown = "backend query #%d" % c1.n
             if why is None:
                 if set(o1) != set(o2):
                     why = "different outputs are written"
                 else:
                     for k in o1:
-                        if not same(ungate(o1[k]), ungate(o2[k])):
+                        v = verdict(ungate(o1[k]), ungate(o2[k]))
+                        if v == 'differ':
                             why = "output at byte %d differs between the builds: %s vs %s" % (k, ir.show(ungate(o1[k]))[:100], ir.show(ungate(o2[k]))[:100])
                             break
-                if why is None and not same(ungate(r1) if r1 else None, ungate(r2) if r2 else None) and not (r1 is None and r2 is None):
-                    why = "result differs between the builds"
+                        if v == 'unknown':
+                            unknown = "output at byte %d" % k
+                if why is None and not (r1 is None and r2 is None):
+                    v = verdict(ungate(r1) if r1 else None, ungate(r2) if r2 else None)
+                    if v == 'differ':
+                        why = "result differs between the builds"
+                    elif v == 'unknown':
+                        unknown = "the result"
             if why:
                 rep.fail("C15.U4-equal", h.name, "harness " + h.name, why)
+            elif unknown:
+                rep.undecided("C15.U4-equal %s: %s is computed by differently shaped code in the two builds (same inputs) and neither polynomial nor bit normal form decides whether the values agree" % (h.name, unknown))
             else:
                 rep.ok("C15.U4-equal", h.name)
     init_rules(rep, tier)
